@@ -168,7 +168,13 @@ def check(run):
             bad = False
             for k, i in enumerate(seq):
                 name, f = ops[i]
-                r = f(w)
+                try:
+                    r = f(w)
+                except Exception as e:   # noqa: BLE001  (the same call on a fresh object returned normally: the history changed the outcome)
+                    run.violation("result-depends-on-history", f"history:{'limited' if limited else 'full'}", {"sequence": [ops[j][0] for j in seq[:k + 1]], "limited": limited},
+                                  "what a fresh object returns", f"raised {type(e).__name__}: {str(e)[:120]}")
+                    bad = True
+                    break
                 if check_inputs(run, limited, [ops[j][0] for j in seq[:k + 1]]):
                     bad = True
                     break
@@ -189,7 +195,13 @@ def check(run):
             seq = [rng.randrange(len(ops)) for _ in range(40)]
             for k, i in enumerate(seq):
                 name, f = ops[i]
-                if not same(name, np.asarray(f(w)), fresh[name]):
+                try:
+                    rr = np.asarray(f(w))
+                except Exception as e:   # noqa: BLE001
+                    run.violation("result-depends-on-history", f"history:{'limited' if limited else 'full'}", {"sequence": [ops[j][0] for j in seq[:k + 1]], "limited": limited},
+                                  "what a fresh object returns", f"raised {type(e).__name__}: {str(e)[:120]}")
+                    break
+                if not same(name, rr, fresh[name]):
                     run.violation("result-depends-on-history", f"history:{'limited' if limited else 'full'}", {"sequence": [ops[j][0] for j in seq[:k + 1]], "limited": limited}, "what a fresh object returns", "differs")
                     break
             run.gap_case("histories", (limited, tuple(seq)), f"long|{'limited' if limited else 'full'}")
